@@ -124,7 +124,8 @@ def h_ops(p0: bool, p1: bool, p2: bool, c0: int, c1: int, c2: int, pre: int) -> 
                     lstaging, _, lobj = build(legacy, src, env.fs, "md5-dos2unix")
                     transfer(lstaging, legacy, {lobj.hash_info}, shallow=False)
                 elif op == "S":
-                    staging, meta, obj = build(cache, src, env.fs, "md5")
+                    # cube trailing: the directory is named with a trailing separator (build() strips it before deriving keys)
+                    staging, meta, obj = build(cache, src + ("/" if cube("trailing", False) else ""), env.fs, "md5")
                     transfer(staging, cache, {obj.hash_info}, shallow=False)
                     with NoTracing():
                         if meta.nfiles != len(files) or meta.size != sum(len(v) for v in files.values()):
